@@ -1,5 +1,202 @@
-//! stub: binary `lifecycle` (to be written)
+//! C07 / C04 (file-system level): the node / monitoring-token / dead-node-cleanup protocol of the real
+//! code, one process per role, driven from outside (checklib/pC07.py) under `strace` (system-call
+//! traces, SIGKILL / SIGSTOP injection at the N-th system call).
+//!
+//! lifecycle owner-create-drop <cfg>        create a node, print `created <id>`, drop it, print `dropped`
+//! lifecycle owner-create <cfg>             create a node, print `created <id>`, then obey stdin lines:
+//!                                            `drop` (orderly drop, prints `dropped`, exits), `exit` (_exit, no drop)
+//! lifecycle monitor <cfg> [<id>]           `list <id>:<NodeState>…` of Node::list; with <id>: `raw <ProcessState> cal <State>`
+//! lifecycle clean <cfg>                    Node::list + try_remove_stale_resources of every dead node: `clean <id>:<result>…`
+//! lifecycle cleaner <cfg> <id> [hold|abandon]   cal-level cleaner acquisition of one node: `cleaner <result>`;
+//!                                            hold: keeps the cleaner until a stdin line arrives, then drops it (= removes the token)
+//!                                            abandon: relinquish (token stays)
+//! lifecycle ls <cfg>                       files below the root of <cfg>, one per line with mode
+//!
+//! <cfg> is an iceoryx2 toml config; it is installed as the GLOBAL config of the process (so that the
+//! clean-up's fall-back to the global config when the node details are unreadable stays in the domain).
+extern crate iceoryx2_bb_loggers;
+
+use iceoryx2::config::Config;
+use iceoryx2::node::{NodeState, NodeView};
+use iceoryx2::prelude::*;
+use iceoryx2_bb_posix::process_state::ProcessMonitor;
+use iceoryx2_bb_system_types::file_name::FileName;
+use iceoryx2_bb_system_types::file_path::FilePath;
+use iceoryx2_cal::monitoring::file_lock::FileLockMonitoring;
+use iceoryx2_cal::monitoring::{Monitoring, MonitoringBuilder, MonitoringCleaner, MonitoringMonitor};
+use iceoryx2_cal::named_concept::{NamedConceptBuilder, NamedConceptConfiguration};
+use std::io::{BufRead, Write};
+
+fn out(s: &str) {
+    let mut o = std::io::stdout();
+    let _ = writeln!(o, "{s}");
+    let _ = o.flush();
+}
+
+fn load(cfg: &str) -> &'static Config {
+    let p = FilePath::new(cfg.as_bytes()).expect("cfg path");
+    Config::setup_global_config_from_file(&p).expect("config file")
+}
+
+fn mon_cfg(config: &Config) -> <FileLockMonitoring as iceoryx2_cal::named_concept::NamedConceptMgmt>::Configuration {
+    <<FileLockMonitoring as iceoryx2_cal::named_concept::NamedConceptMgmt>::Configuration>::default()
+        .prefix(&config.global.prefix)
+        .suffix(&config.global.node.monitor_suffix)
+        .path_hint(&config.global.node_dir())
+}
+
+fn state_name<S: Service>(s: &NodeState<S>) -> String {
+    match s {
+        NodeState::Alive(v) => format!("{}:Alive:{}", v.id().value(), if v.details().is_some() { "d" } else { "-" }),
+        NodeState::Dead(v) => format!("{}:Dead:{}", v.id().value(), if v.details().is_some() { "d" } else { "-" }),
+        NodeState::Inaccessible(id) => format!("{}:Inaccessible:-", id.value()),
+        NodeState::Undefined(id) => format!("{}:Undefined:-", id.value()),
+    }
+}
+
 fn main() {
-    eprintln!("lifecycle: not implemented");
-    std::process::exit(2);
+    iceoryx2_log::set_log_level(iceoryx2_log::LogLevel::Fatal);
+    let args: Vec<String> = std::env::args().collect();
+    if args.len() < 3 {
+        eprintln!("usage: lifecycle <cmd> <cfg> …");
+        std::process::exit(2);
+    }
+    let config = load(&args[2]);
+    match args[1].as_str() {
+        "owner-create-drop" => {
+            let node = NodeBuilder::new().config(config).create::<ipc::Service>();
+            match node {
+                Ok(n) => {
+                    out(&format!("created {}", n.id().value()));
+                    drop(n);
+                    out("dropped");
+                }
+                Err(e) => out(&format!("err:{e:?}")),
+            }
+        }
+        "owner-create" => {
+            let node = NodeBuilder::new().config(config).create::<ipc::Service>();
+            match node {
+                Ok(n) => {
+                    out(&format!("created {}", n.id().value()));
+                    let stdin = std::io::stdin();
+                    let mut line = String::new();
+                    let _ = stdin.lock().read_line(&mut line);
+                    if line.trim() == "drop" {
+                        drop(n);
+                        out("dropped");
+                    } else {
+                        // no destructor runs: the kernel closes the descriptors (= releases the lock)
+                        unsafe { libc_exit() };
+                    }
+                }
+                Err(e) => out(&format!("err:{e:?}")),
+            }
+        }
+        "monitor" => {
+            let mut states = vec![];
+            let r = Node::<ipc::Service>::list(config, |s| {
+                states.push(state_name(&s));
+                CallbackProgression::Continue
+            });
+            states.sort();
+            out(&format!("list {}{}", states.join(" "), if let Err(e) = r { format!(" err:{e:?}") } else { String::new() }));
+            if args.len() > 3 {
+                let name = FileName::new(args[3].as_bytes()).unwrap();
+                let path = mon_cfg(config).path_for(&name);
+                let raw = match ProcessMonitor::new(&path) {
+                    Ok(m) => match m.state() {
+                        Ok(s) => format!("{s:?}"),
+                        Err(e) => format!("err:{e:?}"),
+                    },
+                    Err(e) => format!("err:{e:?}"),
+                };
+                let cal = match <FileLockMonitoring as Monitoring>::Builder::new(&name).config(&mon_cfg(config)).monitor() {
+                    Ok(m) => match m.state() {
+                        Ok(s) => format!("{s:?}"),
+                        Err(e) => format!("err:{e:?}"),
+                    },
+                    Err(e) => format!("err:{e:?}"),
+                };
+                out(&format!("raw {raw} cal {cal}"));
+            }
+        }
+        "clean" => {
+            let mut res = vec![];
+            let r = Node::<ipc::Service>::list(config, |s| {
+                if let NodeState::Dead(v) = s {
+                    let id = v.id().value();
+                    res.push(match v.try_remove_stale_resources() {
+                        Ok(()) => format!("{id}:ok"),
+                        Err(e) => format!("{id}:err:{e:?}"),
+                    });
+                }
+                CallbackProgression::Continue
+            });
+            res.sort();
+            out(&format!("clean {}{}", res.join(" "), if let Err(e) = r { format!(" err:{e:?}") } else { String::new() }));
+        }
+        "cleaner" => {
+            let name = FileName::new(args[3].as_bytes()).unwrap();
+            let mode = args.get(4).map(|s| s.as_str()).unwrap_or("");
+            match <FileLockMonitoring as Monitoring>::Builder::new(&name).config(&mon_cfg(config)).cleaner() {
+                Ok(c) => {
+                    out("cleaner ok");
+                    match mode {
+                        "hold" => {
+                            let mut line = String::new();
+                            let _ = std::io::stdin().lock().read_line(&mut line);
+                            if line.trim() == "exit" {
+                                unsafe { libc_exit() };
+                            }
+                            drop(c);
+                            out("released");
+                        }
+                        "abandon" => {
+                            c.relinquish();
+                            out("abandoned");
+                        }
+                        _ => {
+                            drop(c);
+                            out("released");
+                        }
+                    }
+                }
+                Err(e) => out(&format!("cleaner err:{e:?}")),
+            }
+        }
+        "ls" => {
+            fn walk(p: &std::path::Path, acc: &mut Vec<String>) {
+                if let Ok(rd) = std::fs::read_dir(p) {
+                    for e in rd.flatten() {
+                        let path = e.path();
+                        if let Ok(md) = std::fs::symlink_metadata(&path) {
+                            use std::os::unix::fs::PermissionsExt;
+                            acc.push(format!("{} {:o}", path.display(), md.permissions().mode() & 0o7777));
+                            if md.is_dir() {
+                                walk(&path, acc);
+                            }
+                        }
+                    }
+                }
+            }
+            let mut acc = vec![];
+            walk(std::path::Path::new(&format!("{}", config.global.root_path())), &mut acc);
+            acc.sort();
+            for l in acc {
+                out(&l);
+            }
+        }
+        c => {
+            eprintln!("unknown command {c}");
+            std::process::exit(2);
+        }
+    }
+}
+
+unsafe extern "C" {
+    fn _exit(code: i32) -> !;
+}
+unsafe fn libc_exit() -> ! {
+    unsafe { _exit(0) }
 }
